@@ -80,6 +80,7 @@ type State struct {
 	GOOS     string            // "" = host
 	Godebug  string            // extra GODEBUG token, "" = none
 	QF       bool              // -debug.run-quickfix-analyzers
+	Patterns []string          // named packages; nil = ./...
 	Binary   int               // index into the list of binaries
 	ExtraEnv map[string]string // further environment variables (directed flips of unkeyed os.Getenv reads)
 	// touches: file -> counter; a change means "set mtime to a new value, content unchanged"
@@ -96,6 +97,7 @@ func (s State) clone() State {
 	for k, v := range s.Touch {
 		c.Touch[k] = v
 	}
+	c.Patterns = append([]string(nil), s.Patterns...)
 	c.ExtraEnv = map[string]string{}
 	for k, v := range s.ExtraEnv {
 		c.ExtraEnv[k] = v
@@ -132,13 +134,13 @@ func (s State) files() []srcFile {
 	leaf := "package leaf\n\nvar counter int\n\ntype T struct{ N int }\n\n// Old does something.\n" + dep +
 		"func (t T) Old() int { return t.N }\n\n// Legacy is old.\n" + dep +
 		"func Legacy() int { return 1 }\n\ntype MyErr struct{}\n\nfunc (*MyErr) Error() string { return \"x\" }\n\n// Get returns an error.\nfunc Get() error {\n" + get +
-		"}\n\n// Pure computes.\n//\n//go:noinline\nfunc Pure(a, b int) int {\n" + pure + "}\n\nfunc Counter() int { return counter }\n"
+		"}\n\n// Pure computes.\n//\n//go:noinline\nfunc Pure(a, b int) int {\n" + pure + "}\n\nfunc Counter() int { return counter }\n\nfunc selfAssign() {\n\tx := 1\n\tx = x\n\t_ = x\n}\n\nvar _ = selfAssign\n"
 	for i := 0; i < s.LeafExtra%4; i++ {
 		leaf += fmt.Sprintf("\n// Extra%d is filler.\nfunc Extra%d() int { return %d }\n", i, i, i)
 	}
 	fs = append(fs, srcFile{Rel: "leaf/leaf.go", Content: leaf})
 
-	mid := "package mid\n\nimport \"" + modPath + "/leaf\"\n\nfunc Make() leaf.T { return leaf.T{N: 1} }\n\nfunc Wrap() error { return leaf.Get() }\n\nfunc Calc(a int) int { return leaf.Pure(a, a) }\n"
+	mid := "package mid\n\nimport \"" + modPath + "/leaf\"\n\nfunc Make() leaf.T { return leaf.T{N: 1} }\n\nfunc Wrap() error { return leaf.Get() }\n\nfunc Calc(a int) int { return leaf.Pure(a, a) }\n\nfunc Old() int { return leaf.Legacy() }\n"
 	for i := 0; i < s.MidExtra%3; i++ {
 		mid += fmt.Sprintf("\nfunc Filler%d() int { return %d }\n", i, i)
 	}
@@ -261,7 +263,10 @@ func (s State) argv() []string {
 	if s.QF {
 		a = append(a, "-debug.run-quickfix-analyzers")
 	}
-	return append(a, "./...")
+	if len(s.Patterns) == 0 {
+		return append(a, "./...")
+	}
+	return append(a, s.Patterns...)
 }
 
 func (s State) envv(cache string, extra []string) []string {
@@ -608,6 +613,11 @@ func flippers(thorough bool) []flipper {
 		// the expensive ones first (test variants pull in the testing closure; a new GOOS recompiles everything)
 		{"Tests", nil, func(s *State) { s.Tests = true }},
 		{"GOOS", nil, func(s *State) { s.GOOS = "windows" }},
+		// the set of named packages (initial vs dependency-only is NOT in the key: told apart by the sub-keys present)
+		{"Patterns:dependency-then-all", func(s *State) { s.Patterns = []string{"./target"} }, func(s *State) { s.Patterns = nil }},
+		{"Patterns:dependency-then-named", func(s *State) { s.Patterns = []string{"./far"} }, func(s *State) { s.Patterns = []string{"./leaf", "./mid"} }},
+		{"Patterns:all-then-one", nil, func(s *State) { s.Patterns = []string{"./leaf"} }},
+		{"Patterns:subset-grows", func(s *State) { s.Patterns = []string{"./mid"} }, func(s *State) { s.Patterns = []string{"./leaf", "./mid", "./deep4"} }},
 		{"Files:target", nil, func(s *State) { s.TargetVariant = 1 }},
 		{"DepFacts:deprecated-comment-only", nil, func(s *State) { s.LeafDeprecated = false }},
 		{"DepFacts:deprecated-comment-only:reverse", func(s *State) { s.LeafDeprecated = false }, func(s *State) { s.LeafDeprecated = true }},
@@ -668,7 +678,7 @@ func randomConf(r *hx.Rand) Conf {
 func randomEdit(r *hx.Rand, h *history, thorough bool) string {
 	s := &h.cur
 	for {
-		switch r.Intn(16) {
+		switch r.Intn(17) {
 		case 0:
 			s.TargetVariant = (s.TargetVariant + 1 + r.Intn(3)) % 4
 			return fmt.Sprintf("edit target file (variant %d)", s.TargetVariant)
@@ -750,7 +760,13 @@ func randomEdit(r *hx.Rand, h *history, thorough bool) string {
 				s.TestVariant++
 				return "edit test file"
 			}
-		case 15:
+		case 15, 16:
+			if r.Chance(60) {
+				ch := [][]string{nil, {"./target"}, {"./leaf"}, {"./mid"}, {"./far"}, {"./deep3"}, {"./target", "./leaf"}, {"./leaf", "./target"},
+					{"./mid", "./far"}, {"./deep4", "./hop1"}, {"./rng", "./mid"}}
+				s.Patterns = ch[r.Intn(len(ch))]
+				return fmt.Sprintf("named packages := %v", s.Patterns)
+			}
 			if thorough && len(binaries) > 1 && r.Chance(30) {
 				s.Binary = (s.Binary + 1) % len(binaries)
 				return fmt.Sprintf("switch to binary %d", s.Binary)
